@@ -356,6 +356,9 @@ def c17(tier):
     from . import groups as G
     run = P.Run("C17", tier, ["C17_"])
     s = run.seed
+    # Spec B with the Rerun action: C17 clauses model-checked, behaviours replayed into the real conductor
+    run.add_mc(F.curated() + F.curated_retry()[:4] + F.random_family(3500 + s, sizes(tier, 15, 150), nmax=4),
+               ["C17"], max_rerun=1, max_steps=18, replay=True)
     defs = F.curated() + F.random_family(2400 + s, sizes(tier, 50, 500), nmax=4, publish=True)
     env = {"rerun": 1, "rerun_tasks": True, "max_nodes": sizes(tier, 2500, 10000)}
     run.add_jobs(jobs_for(defs, env, s, ("yaql", "jinja")))
